@@ -553,7 +553,16 @@ pub fn run_concurrent<'a>(bodies: Vec<Box<dyn FnOnce() + 'a>>) {
                 let c = cx();
                 c.sched.yielders[i] = y as *const _;
             }
-            body();
+            // a simulated abort (budget, deadlock) raised outside any operation ends this actor; it must
+            // not travel through the scheduler's own frames
+            if let Err(p) = std::panic::catch_unwind(std::panic::AssertUnwindSafe(body)) {
+                if p.downcast_ref::<SimPanic>().is_none() {
+                    // a panic of the scenario's own bookkeeping (library panics are caught where the
+                    // operation is issued): a harness error, never a verdict
+                    let msg = p.downcast_ref::<String>().cloned().or_else(|| p.downcast_ref::<&str>().map(|s| s.to_string())).unwrap_or_else(|| "panic".into());
+                    cx().harness_error = Some(format!("an actor body panicked outside an operation: {}", msg));
+                }
+            }
         });
         cos.push(Some(co));
     }
